@@ -170,8 +170,13 @@ Section Run.
     | [] => []
     | (s, kvs) :: t => let c' := s_store cf s kvs in c' :: cfgs_after c' t
     end.
-  Definition s_ok_err := ok_err beqb lower_b is_none_b known parse (e_srcs e) (env_local e).
-  Definition s_ok_value := ok_value beqb lower_b is_none_b known parse (e_srcs e) (env_local e) beqb.
+  (* the ORACLE takes the priority order and the local sources from the property text, not from the code:
+     internal override (6), environment (5), config file (4), per-host (3), per-selector (2), global datastore (1);
+     the first three are local.  (Theorem c27_gen_source_order ties the numbers to Source.String().) *)
+  Definition spec_srcs : list N := [6; 5; 4; 3; 2; 1].
+  Definition spec_local (s : N) : bool := 4 <=? s.
+  Definition s_ok_err := ok_err beqb lower_b is_none_b known parse spec_srcs spec_local.
+  Definition s_ok_value := ok_value beqb lower_b is_none_b known parse spec_srcs spec_local beqb.
 
   Fixpoint all2 {A B} (f : A -> B -> bool) (a : list A) (b : list B) : bool :=
     match a, b with
